@@ -73,7 +73,11 @@ pub fn a85_encode(data: &[u8], s: &mut Src) -> Vec<u8> {
     out.extend_from_slice(b"~>");
     out
 }
-pub fn a85_decode(data: &[u8]) -> Result<Vec<u8>, String> {
+pub fn a85_decode(data: &[u8]) -> Result<Vec<u8>, String> { a85_decode_opt(data, false) }
+/// The reference for what an ENCODER may emit: the end-of-data marker is "the 2-character sequence ~>" (7.4.3), so
+/// white-space between its two characters is not the standard format (a reader may still be lenient about it).
+pub fn a85_decode_strict(data: &[u8]) -> Result<Vec<u8>, String> { a85_decode_opt(data, true) }
+fn a85_decode_opt(data: &[u8], strict_eod: bool) -> Result<Vec<u8>, String> {
     let mut out = Vec::new();
     let mut grp: Vec<u8> = Vec::new();
     let mut i = 0;
@@ -82,6 +86,7 @@ pub fn a85_decode(data: &[u8]) -> Result<Vec<u8>, String> {
         let b = data[i]; i += 1;
         if is_pdf_ws(b) { continue; }
         if b == b'~' { 
+            if strict_eod && i < data.len() && is_pdf_ws(data[i]) { return Err("white-space inside the end-of-data marker ~>".into()); }
             while i < data.len() && is_pdf_ws(data[i]) { i += 1; }
             if i < data.len() && data[i] == b'>' { eod = true; break; }
             return Err("~ not followed by >".into());
